@@ -60,6 +60,8 @@ class Fixtures(dict):
             "twin_params": lambda: {"use": "sig"},
             "twin_a": lambda: A.jkey(scen.key("P-256", 5), "pem", params=self["twin_params"]),
             "twin_b": lambda: A.jkey(scen.key("P-256", 6), "pem", params=self["twin_params"]),
+            # the registry class an application derives for its own defaults
+            "app_jwe_registry_cls": lambda: type("ApplicationJWERegistry", (jwe.JWERegistry,), {}),
             "sender1pu": lambda: A.jkey(scen.key("X25519", 5), "dict"),      # one ECDH-1PU sender talking to several kid-less peers
             "rcpt1pu": lambda: A.jkey(scen.key("X25519", 6), "dict"),
             "set": lambda: KeySet([A.jkey(scen.key("oct32", 1), "bytes"), A.jkey(scen.key("oct32", 2), "bytes")]),
@@ -81,7 +83,7 @@ def fixtures(eager=()):
     return f
 
 
-ALL_FIXTURES = ["oct", "ec", "ec_pub", "rsa", "ed", "x", "oct16", "octlong", "ec_ops", "oct_emptykid", "twin_params", "twin_a", "twin_b", "sender1pu", "rcpt1pu", "set", "ecset", "jwsreg", "jwereg", "jwereg_custom", "jwsreg_custom"]
+ALL_FIXTURES = ["oct", "ec", "ec_pub", "rsa", "ed", "x", "oct16", "octlong", "ec_ops", "oct_emptykid", "twin_params", "twin_a", "twin_b", "app_jwe_registry_cls", "sender1pu", "rcpt1pu", "set", "ecset", "jwsreg", "jwereg", "jwereg_custom", "jwsreg_custom"]
 
 
 def ref_token(alg, kind, which=0, kid=None, payload=PT, bad=False):
@@ -277,6 +279,25 @@ def make_ops():
     add("as_dict [oct key whose kid is the empty string]", lambda f, d: ("export", tuple(sorted(f["oct_emptykid"].as_dict().items()))))
     add("verify HS256 naming the empty kid [key set made around the key whose kid is the empty string]",
         lambda f, d: obs_verify(call(lambda: jws.deserialize_compact(ref_token("HS256", "oct32", 3, kid=""), KeySet([f["oct_emptykid"], A.jkey({**K("oct32", 4), "kid": "other"}, "dict")])))))
+    add("as_dict private [ec key]", lambda f, d: ("export", tuple(sorted(i for i in f["ec"].as_dict(private=True).items() if i != ("kid", ec_tp)))))
+
+    def zip_model(name):
+        import copy as _copy
+        m = _copy.copy(jwe.JWERegistry.algorithms["zip"]["DEF"])
+        m.name = name
+        return m
+
+    def reg_through_subclass(f, d):
+        f["app_jwe_registry_cls"].register(zip_model("ZIP-A"))
+        return ("registered", "ZIP-A" in f["app_jwe_registry_cls"].algorithms["zip"])
+
+    def reg_through_base_use_through_subclass(f, d):
+        jwe.JWERegistry.register(zip_model("ZIP-B"))
+        reg = f["app_jwe_registry_cls"](algorithms=["dir", "A256GCM", "ZIP-B"])
+        r = call(jwe.encrypt_compact, {"alg": "dir", "enc": "A256GCM", "zip": "ZIP-B"}, PT, f["oct"], registry=reg)
+        return ("encrypted", True) if r.ok else ("rej", type(r.exc).__name__)
+    add("register a zip model through the application's registry subclass", reg_through_subclass)
+    add("register a zip model through JWERegistry, use it through a registry of the application's subclass", reg_through_base_use_through_subclass)
     twin_tp = rjwk.thumbprint(rjwk.public_of(K("P-256", 5)))
     add("as_dict public [first of two keys made with one parameters dict]", lambda f, d: ("export", tuple(sorted((k, str(v)) for k, v in f["twin_a"].as_dict(private=False).items() if (k, v) != ("kid", twin_tp)))))
     add("public export of a key set made around the two keys made with one parameters dict",
@@ -362,7 +383,11 @@ class SeqModel:
     def canon(self, st):
         from ..history import canon_state
         fx = st["fx"]
-        return canon_state(*[fx[k] for k in sorted(fx)])
+        # class-level tables are state too: what the application's registry subclass holds of its own, and what it sees
+        app = fx["app_jwe_registry_cls"]
+        tables = (tuple(sorted(k for k in vars(app) if not k.startswith("__"))), tuple(sorted(app.algorithms["zip"])), tuple(sorted(app.recommended)),
+                  tuple(sorted(app.__mro__[1].algorithms["zip"])))
+        return (tables, canon_state(*[fx[k] for k in sorted(fx)]))
 
     def bucket(self, obs):
         return str(obs[0]) + (":" + str(obs[1])[:20] if obs[0] == "rej" else "")
